@@ -28,6 +28,10 @@ def T():
 
         ns = _types.SimpleNamespace(ops=ops, tys=tys, val=val, FLOAT_T=FLOAT_T, FloatVal=FloatVal, DivMod=DivMod,
                                     IntVal=IntVal, int_t=int_t, Not=Not, STRING_T=STRING_T, StringVal=StringVal)
+        from hugr.std.collections.array import Array, ArrayVal
+        from hugr.std.collections.list import List, ListVal
+
+        ns.Array, ns.ArrayVal, ns.List, ns.ListVal = Array, ArrayVal, List, ListVal
         ns.Q = tys.Qubit
         ns.B = tys.Bool
         ns.I5 = int_t(5)
@@ -41,6 +45,10 @@ def T():
             "CX": q("CX", [ns.Q, ns.Q], [ns.Q, ns.Q]), "Measure": q("Measure", [ns.Q], [ns.Q, ns.B]),
             "Rz": q("Rz", [ns.Q, FLOAT_T], [ns.Q]), "Triple": q("Triple", [ns.B], [ns.B, ns.B, ns.B]),
         }
+        # an extension no registry knows until the last resolution step (C11 workloads only)
+        ns.UT = tys.Opaque("ut", tys.TypeBound.Copyable, [tys.TypeTypeArg(Array(int_t(5), 2))], "verif.u")
+        ns.UOP = lambda: ops.Custom("uop", F([ns.B], [ns.UT], ["verif.u"]), "about uop", "verif.u",
+                                    [tys.TypeTypeArg(ns.UT), tys.SequenceArg([tys.TypeTypeArg(int_t(3)), tys.BoundedNatArg(4)])])
         _T = ns
     return _T
 
@@ -90,6 +98,8 @@ def constable(ty) -> bool:
     if isinstance(ty, t.tys.Sum):
         return all(constable(x) for r in ty.variant_rows for x in r) and len(ty.variant_rows) > 0
     if isinstance(ty, t.tys.ExtType):
+        if ty.type_def.name in ("array", "List"):
+            return constable(ty.ty)
         return ty == t.FLOAT_T or ty == t.STRING_T or (ty.type_def.name == "int")
     return False
 
@@ -623,8 +633,14 @@ class BuilderSim:
     def gen_type(self, depth=0, linear_ok=True, synth_only=False):
         ch = self.ctx.ch
         t = T()
-        w = [6, 4 if linear_ok else 0, 3, 2, 1, 1, 2 if depth < 2 else 0, 2 if depth < 2 else 0, 1 if depth < 2 else 0]
+        w = [6, 4 if linear_ok else 0, 3, 2, 1, 1, 2 if depth < 2 else 0, 2 if depth < 2 else 0, 1 if depth < 2 else 0,
+             2 if (self.features.get("collections") and depth < 2) else 0]
         k = ch.weighted(w, "type")
+        if k == 9:
+            elem = self.gen_type(depth + 1, linear_ok=False)
+            if not constable(elem):
+                elem = t.int_t(5)
+            return t.Array(elem, 1 + ch.draw(3, "array-n")) if ch.coin(1, 2, "array") else t.List(elem)
         if k == 0:
             return t.B
         if k == 1:
@@ -678,6 +694,10 @@ class BuilderSim:
             return t.FloatVal(ch.pick([0.0, 1.5, -2.25, 1e300], "float"))
         if ty == t.STRING_T:
             return t.StringVal(ch.pick(["", "a", "né☃", 'q"\\'], "string"))
+        if isinstance(ty, t.tys.ExtType) and ty.type_def.name == "array":
+            return t.ArrayVal([self.const_value(ty.ty) for _ in range(ty.size)], ty.ty)
+        if isinstance(ty, t.tys.ExtType) and ty.type_def.name == "List":
+            return t.ListVal([self.const_value(ty.ty) for _ in range(ch.draw(3, "list-n"))], ty.ty)
         if isinstance(ty, t.tys.ExtType) and ty.type_def.name == "int":
             w = ty.args[0].n
             return t.IntVal(ch.draw(min(2 ** (2 ** w), 1000), "int-val"), w)
@@ -827,6 +847,8 @@ class BuilderSim:
         cands += ["H", "CX", "Measure", "QAllocFree"]
         if has(t.FLOAT_T):
             cands.append("Rz")
+        if self.features.get("unregistered") and has(t.B):
+            cands.append("uop")
         pool_live = a.live()
         if a.live(novar=False):
             cands.append("Noop")
@@ -854,6 +876,9 @@ class BuilderSim:
             a.add_op(t.QOPS["Measure"](), [a.find(t.Q)], [t.Q, t.B], md, "Measure")
         elif op == "QAllocFree":
             a.add_op(t.QOPS["QAlloc"](), [], [t.Q], md, "QAlloc")
+        elif op == "uop":
+            a.add_op(t.UOP(), [a.find(t.B)], [t.UT], md, "uop")
+            self.ctx.probe("unregistered_extension_op")
         elif op == "Rz":
             a.add_op(t.QOPS["Rz"](), [a.find(t.Q), a.find(t.FLOAT_T)], [t.Q], md, "Rz")
         elif op == "Noop":
